@@ -25,6 +25,8 @@
 (* Mode "rows"   : every row up to MaxCols tokens            (pattern R)   *)
 (* Mode "objs"   : every qualified-name shape, round trip    (pattern R)   *)
 (* Mode "update" : every fault configuration                 (pattern S)   *)
+(* Mode "writes" : every sequence of up to 3 generate() calls (writer x     *)
+(*                 project) in one process, each file read back            *)
 (* Mode "hist"   : every sequence of up to 4 look-ups / loads on one reader  *)
 (* Mode "multi"  : every sequence of up to 3 --intersphinx URLs (host x    *)
 (*                 outcome of the fetch), loaded one after the other       *)
@@ -45,6 +47,8 @@ FileRows == IF Mode = "file" THEN JsonDeserialize(IOEnv.ROWS_FILE) ELSE <<>>
 IsInt(c)    == c = "int"
 HistEvents == {"L1", "L2", "I1", "I2", "B1"}
 NameOf(e) == IF e \in {"L1", "I1", "B1"} THEN "n1" ELSE "n2"
+Writers  == {"w1", "w2"}          \* SphinxInventoryWriter objects living in one process
+Projects == {"p1", "p2"}          \* p1: one root; p2: several roots
 Hosts    == {"h1", "h2"}
 Outcomes == {"ok", "exception", "junk"}
 HasColon(c) == c \in {"py", "std", "pyx"}
@@ -169,6 +173,8 @@ Init ==
          /\ dups = <<>> /\ cfg = NoCfg /\ pc = "done"
       \/ /\ Mode = "objs" /\ row = <<>> /\ cfg = NoCfg /\ pc = "done"
          /\ dups \in {d \in (SeqsUpTo(BOOLEAN, MaxDepth) \ {<<>>}) : ~d[1]}          \* a module is never a duplicate
+      \/ /\ Mode = "writes" /\ row = <<>> /\ dups = <<>> /\ pc = "writes"
+         /\ cfg \in (SeqsUpTo([w : Writers, p : Projects], 3) \ {<<>>})
       \/ /\ Mode = "hist" /\ row = <<>> /\ dups = <<>> /\ pc = "hist"
          /\ cfg \in (SeqsUpTo(HistEvents, 4) \ {<<>>})
       \/ /\ Mode = "multi" /\ row = <<>> /\ dups = <<>> /\ pc = "multi"
@@ -224,7 +230,13 @@ HistStep == /\ pc = "hist" /\ UNCHANGED <<row, dups, cfg>>
                     /\ CASE e \in {"L1", "L2"} -> answers' = Append(answers, NameOf(e) \in links) /\ UNCHANGED <<errors, links>>
                          [] e \in {"I1", "I2"} -> links' = links \cup {NameOf(e)} /\ UNCHANGED <<errors, answers>>
                          [] e = "B1" -> errors' = errors + 1 /\ UNCHANGED <<links, answers>>
-Next == Rsplit \/ Fetch \/ Payload \/ Inflate \/ Decode \/ Lines \/ FetchNext \/ HistStep
+\* ---- several generate() calls in one process, through the same or through different writer objects
+\* (SphinxInventoryWriter.generate :202-214: header, then zlib.compress(all lines) - a fresh compression every time,
+\* nothing of an earlier call is kept in the writer).  answers[i] = the project whose objects file i holds.
+WriteStep == /\ pc = "writes" /\ UNCHANGED <<row, dups, cfg, errors, links>>
+             /\ IF li > Len(cfg) THEN pc' = "done" /\ UNCHANGED <<li, answers>>
+                ELSE li' = li + 1 /\ pc' = pc /\ answers' = Append(answers, cfg[li].p)
+Next == Rsplit \/ Fetch \/ Payload \/ Inflate \/ Decode \/ Lines \/ FetchNext \/ HistStep \/ WriteStep
 Spec == Init /\ [][Next]_vars
 
 \* the contract of update (from the property statement)
@@ -249,6 +261,9 @@ Loaded(i, nm) == \E j \in 1..(i - 1) : cfg[j] \in {"I1", "I2"} /\ NameOf(cfg[j])
 LookupsFollowLoads == (Mode = "hist" /\ pc = "done") =>
                          /\ Len(answers) = Cardinality(LookupPositions)
                          /\ \A k \in DOMAIN answers : answers[k] = Loaded(NthLookup(k), NameOf(cfg[NthLookup(k)]))
+\* every file written reads back as exactly the visible documented objects of the project it was written for
+EachFileComplete == (Mode = "writes" /\ pc = "done") =>
+                       /\ Len(answers) = Len(cfg) /\ \A i \in DOMAIN cfg : answers[i] = cfg[i].p
 EachGoodResolves == (Mode = "multi" /\ pc = "done") =>
                        /\ links = {i \in DOMAIN cfg : cfg[i].out = "ok"}
                        /\ errors = Cardinality({i \in DOMAIN cfg : cfg[i].out # "ok"})
@@ -261,6 +276,7 @@ DesignKnown ==
    /\ Mode = "update" => (Terminal => UpdateClasses \subseteq Open)
    /\ EachGoodResolves
    /\ LookupsFollowLoads
+   /\ EachFileComplete
 
 Emit ==
    CASE Mode \in {"rows", "file"} ->
@@ -269,6 +285,8 @@ Emit ==
      [] Mode = "objs" ->
           PrintT(ToJson([dups |-> dups, row |-> WriteLine(dups), impl |-> ImplParse(WriteLine(dups)),
                          roundtrip |-> RoundTrip(dups), sphinx |-> RoundTripSphinx(dups)]))
+     [] Mode = "writes" ->
+          (Terminal => PrintT(ToJson([cfg |-> cfg, answers |-> answers])))
      [] Mode = "hist" ->
           (Terminal => PrintT(ToJson([cfg |-> cfg, answers |-> answers, links |-> links, errors |-> errors])))
      [] Mode = "multi" ->
